@@ -258,6 +258,43 @@ LOCK_SHARED = LockModel('shared')
 LOCK_DISJOINT = LockModel('disjoint')
 
 
+# -------------------------------------------------------------------------------------------------
+# (a') exception paths: one injected failure inside every critical section
+# -------------------------------------------------------------------------------------------------
+def eval_fault_paths(case):
+    """one store / importer / graph operation from a root state; for EVERY Python function entered while the store lock is
+    held (networkx, networkx_query and the store's own helpers) one execution in which that entry fails: whatever the
+    operation then does, it leaves the lock free and balanced"""
+    from fimmc.faults import CalleeFaults
+    fl, root, ev = case[0], case[1], tuple(case[2])
+    m = LOCK_SHARED if fl == 'shared' else LOCK_DISJOINT
+    v = []
+    skip = {f.__code__ for f in (CountingLock.acquire, CountingLock.release, CountingLock.locked, CountingLock.__enter__, CountingLock.__exit__)}
+
+    def fresh():
+        m.build_root(root)
+        return CalleeFaults(lambda: m.lock.held, skip)
+    injected = 0
+    n = '?'
+    for k in range(5000):
+        # k counts up until an execution meets no k-th entry any more: every entry of THAT execution prefix was failed once
+        cf = fresh()
+        lk = m.lock
+        (kind, what), _ = cf.run(lambda: m.apply(ev), k)
+        if cf.where is None:
+            break
+        injected += 1
+        if lk.held:
+            v.append((f'lock/{fl}/{ev[0]}:left-held-after-failure', f'[{fl}] {ev} from root {root}: a failure entering {cf.where} '
+                                                                    f'(entry {k} of {n} inside the critical section) left the store lock held'))
+        elif lk.acquires != lk.releases or lk.errors:
+            v.append((f'lock/{fl}/{ev[0]}:unbalanced-after-failure', f'[{fl}] {ev} from root {root}: failure entering {cf.where}: '
+                                                                     f'{lk.acquires} acquires vs {lk.releases} releases, errors {lk.errors}'))
+    m.build_root(root)
+    return {'v': v, 'nt': (fl, root, ev) if injected else None, 'out': 'faults-injected' if injected else 'no-critical-section',
+            'tags': {f'entries:{injected}'}}
+
+
 # =================================================================================================
 # (b) interleavings
 # =================================================================================================
@@ -272,6 +309,9 @@ def code_objects(flavour):
     inner = _inner(NetworkXGraphStorage if flavour == 'shared' else NetworkXGraphStorageDisjoint)
     codes = [f.__code__ for n, f in inner.__dict__.items() if callable(f) and hasattr(f, '__code__') and n != '__init__']
     codes.append(NetworkXPropertyGraph.add_node.__code__)
+    # the constructors of the store and of its singleton shell run concurrently only in the first-use harnesses
+    outer = NetworkXGraphStorage if flavour == 'shared' else NetworkXGraphStorageDisjoint
+    codes += [inner.__init__.__code__, outer.__init__.__code__]
     return codes
 
 
@@ -292,9 +332,13 @@ SCENARIOS = {
     'direct-direct-same-id': [[('import_direct', 'K1', 'good')], [('import_direct', 'K1', 'good2')]],
     'add-add-add': [[('add_node', 'g', 'x')], [('add_node', 'g', 'y')], [('add_node', 'h', 'z')]],
     'import-import-add': [[('import', 'K1', 'good')], [('import', 'K2', 'good')], [('add_node', 'g', 'x')]],
+    # first use: no store exists yet in the process; each thread builds its own importer (which builds or finds the store)
+    'first-use-import-import': [[('first_import', 'K1', 'good')], [('first_import', 'K2', 'good2')]],
+    'first-use-import-add': [[('first_import', 'K1', 'good')], [('first_import', 'K2', 'good'), ('add_node', 'K2', 'x')]],
 }
 QUICK_SCEN = ['add-add-same-graph', 'add-add-other-graph', 'import-import-fresh', 'import-add', 'import-import-same-id',
-              'add2-add', 'import-extract', 'blank-extract', 'blank-blank', 'direct-direct', 'direct-blank', 'direct-import']
+              'add2-add', 'import-extract', 'blank-extract', 'blank-blank', 'direct-direct', 'direct-blank', 'direct-import',
+              'first-use-import-import']
 
 
 class Harness:
@@ -314,7 +358,58 @@ class Harness:
         cls = NetworkXPropertyGraph if self.flavour == 'shared' else NetworkXPropertyGraphDisjoint
         return cls(graph_id=gid, importer=self.imp())
 
+    def _modules(self):
+        import fim.graph.networkx_property_graph as m1
+        import fim.graph.networkx_property_graph_disjoint as m2
+        return (m1,) if self.flavour == 'shared' else (m1, m2)
+
+    def setup_first_use(self, lock_factory):
+        """no store instance; every lock the library creates from now on comes from lock_factory"""
+        import threading as _th
+        world.reset_all()
+        self.made_locks = []
+        h = self
+
+        def mk():
+            lk = lock_factory()
+            h.made_locks.append(lk)
+            return lk
+
+        class Shim:
+            Lock = staticmethod(mk)
+
+            def __getattr__(self_, n):
+                return getattr(_th, n)
+        self._saved = []
+        for m in self._modules():
+            for name, val in (('Lock', mk), ('threading', Shim())):
+                if hasattr(m, name):
+                    self._saved.append((m, name, getattr(m, name)))
+                    setattr(m, name, val)
+        self._swap_class_locks(mk)
+        outer = NetworkXGraphStorage if self.flavour == 'shared' else NetworkXGraphStorageDisjoint
+        outer.storage_instance = None
+        self.allocated = []
+
+    def _swap_class_locks(self, factory):
+        """locks held at class level by the singleton shells (a real lock held by a preempted thread would stop the
+        cooperative scheduler for good): replaced by scheduler-aware ones for the duration of one execution"""
+        import threading as _th
+        self._saved_cls = []
+        for outer in (NetworkXGraphStorage, NetworkXGraphStorageDisjoint):
+            for k, v in list(outer.__dict__.items()):
+                if type(v) is type(_th.Lock()):
+                    self._saved_cls.append((outer, k, v))
+                    setattr(outer, k, factory())
+
+    def _restore_class_locks(self):
+        for outer, k, v in getattr(self, '_saved_cls', []):
+            setattr(outer, k, v)
+        self._saved_cls = []
+
     def setup(self, lock):
+        if self.scenario.startswith('first-use'):
+            raise AssertionError('first-use harnesses are set up through setup_first_use')
         world.reset_all()
         st = self.store()
         st.add_graph('g', GOOD.copy())
@@ -330,6 +425,12 @@ class Harness:
         st.add_blank_node_to_graph = recording
 
     def teardown(self):
+        if self.scenario.startswith('first-use'):
+            for m, name, val in self._saved:
+                setattr(m, name, val)
+            self._restore_class_locks()
+            return
+        self._restore_class_locks()
         st = self.store()
         st.__dict__.pop('add_blank_node_to_graph', None)
 
@@ -348,6 +449,10 @@ class Harness:
             self.store().add_graph_direct(op[1], g)
         elif k == 'extract':
             self.store().extract_graph(op[1])
+        elif k == 'first_import':
+            # a component of the process that has never touched the store: builds its importer, then imports
+            imp = self.imp()
+            imp.storage.add_graph(op[1], {'good': GOOD, 'good2': GOOD2}[op[2]].copy())
         else:
             raise AssertionError(op)
 
@@ -367,7 +472,10 @@ class Harness:
             tags += [t] * len(ops)
         outs = set()
         for perm in set(itertools.permutations(tags)):
-            self.setup(CountingLock())
+            if self.scenario.startswith('first-use'):
+                self.setup_first_use(CountingLock)
+            else:
+                self.setup(CountingLock())
             idx = [0] * len(self.ops)
             for t in perm:
                 self.do(self.ops[t][idx[t]])
@@ -378,9 +486,19 @@ class Harness:
         return outs
 
     def make_bodies(self, scheduler):
-        lock = S.ModelLock(scheduler)
-        self.setup(lock)
-        ctx = {'lock': lock}
+        if self.scenario.startswith('first-use'):
+            self.setup_first_use(lambda: S.ModelLock(scheduler))
+            ctx = {'lock': None, 'locks': self.made_locks}
+        else:
+            lock = S.ModelLock(scheduler)
+            self.setup(lock)
+            extra = []
+
+            def mk():
+                extra.append(S.ModelLock(scheduler))
+                return extra[-1]
+            self._swap_class_locks(mk)
+            ctx = {'lock': lock, 'locks': [lock] + extra}
 
         def body(ops):
             def run():
@@ -407,8 +525,9 @@ class Harness:
                     v.append((f'unlocked-scan/add_node/{fl}', f'[{fl}/{sc}] thread {t} ({self.ops[t]}) ended with {r}'))
                 else:
                     v.append((f'thread-raised/{fl}/{sc}', f'[{fl}/{sc}] thread {t} ({self.ops[t]}) ended with {r}'))
-        if lock.owner is not None or lock.acquires != lock.releases or lock.errors:
-            v.append((f'lock/{fl}/{sc}', f'[{fl}/{sc}] lock owner={lock.owner} acquires={lock.acquires} releases={lock.releases} errors={lock.errors}'))
+        for lock in ctx['locks']:
+            if lock.owner is not None or lock.acquires != lock.releases or lock.errors:
+                v.append((f'lock/{fl}/{sc}', f'[{fl}/{sc}] lock owner={lock.owner} acquires={lock.acquires} releases={lock.releases} errors={lock.errors}'))
         ids = self.allocated if fl == 'disjoint' else [('*', i) for _, i in self.allocated]
         if len(ids) != len(set(ids)):
             v.append((f'id-reused/{fl}/{sc}', f'[{fl}/{sc}] an internal identifier was handed out twice: {self.allocated}'))
@@ -457,6 +576,9 @@ def eval_schedules(case):
                 raise RuntimeError('scheduler nondeterminism: replay of an explored schedule diverged')
     finally:
         sc.uninstall()
+        if scenario.startswith('first-use') and hasattr(h, '_saved'):
+            h.teardown()          # (idempotent) the library's modules get their real lock factory back whatever happened
+        h._restore_class_locks()
         world.reset_all()
         import threading
         world.shared_store().lock = threading.Lock()
@@ -483,7 +605,7 @@ def eval_replayable(case):
     return eval_schedules(case)
 
 
-REPLAY = {'lock-shared': LOCK_SHARED, 'lock-disjoint': LOCK_DISJOINT, 'schedules': eval_replayable}
+REPLAY = {'lock-shared': LOCK_SHARED, 'lock-disjoint': LOCK_DISJOINT, 'schedules': eval_replayable, 'fault-paths': eval_fault_paths}
 
 
 def run(report):
@@ -494,6 +616,14 @@ def run(report):
                      'after every call the lock must be free, balanced and no lock error raised')
         report.require(any(k.endswith(':raise') for k in g['outcomes']), f'{name}: failing operations were exercised')
         report.require(g['outcomes'].get('add_graph/noid:raise', 0) > 0, f'{name}: import lacking NodeID fails inside the critical section')
+    fcases = [(fl, root, ev) for fl in ('shared', 'disjoint') for root in (('one',) if report.tier == 'quick' else ('one', 'empty'))
+              for ev in LOCK_SHARED.events()]
+    gf = explore_cases(report, 'fault-paths', eval_fault_paths, fcases, chunk=2,
+                       rule='deviation bound 1 on the exception paths: every store / importer / graph operation of the lock model from '
+                            'a root state x EVERY Python function entered while the store lock is held, that entry failing; the lock '
+                            'must end free and balanced')
+    gf['injected_failures'] = sum(int(k.split(':')[1]) * n for k, n in gf['tags'].items() if k.startswith('entries:'))
+    report.require(gf['injected_failures'] > 100, 'more than 100 failures injected inside critical sections')
     scen = QUICK_SCEN if report.tier == 'quick' else list(SCENARIOS)
 
     def bound_of(s):
